@@ -1,6 +1,7 @@
 package props
 
 import (
+	"time"
 	"encoding/json"
 	"fmt"
 	"math"
@@ -43,6 +44,25 @@ type c16NoTags struct {
 	Count int
 	Inner struct{ X, Y int }
 }
+
+// named scalar types with a String method of their own (what fmt prints for them is not their value)
+type c16Enum int
+
+func (e c16Enum) String() string { return [...]string{"low", "mid", "high"}[e%3] }
+
+type c16Label string
+
+func (l c16Label) String() string { return "label<" + string(l) + ">" }
+
+type c16Ratio float64
+
+func (r c16Ratio) String() string { return "ratio" }
+
+type c16Flag bool
+
+func (f c16Flag) String() string { return "flag" }
+
+type c16Plain int32
 
 type c16Val struct {
 	Name string
@@ -91,6 +111,18 @@ func c16Values() []c16Val {
 	}
 	add("true", true, schema.ItemTypeBoolean)
 	add("false", false, schema.ItemTypeBoolean)
+	// named scalar types, with and without a String method
+	add("duration", 90*time.Second, schema.ItemTypeInteger)
+	add("month", time.March, schema.ItemTypeInteger)
+	add("weekday", time.Saturday, schema.ItemTypeInteger)
+	add("enum", c16Enum(2), schema.ItemTypeInteger)
+	add("plain-named-int", c16Plain(-5), schema.ItemTypeInteger)
+	add("label", c16Label("x"), schema.ItemTypeString)
+	add("ratio", c16Ratio(2.5), schema.ItemTypeFloat)
+	add("flag", c16Flag(true), schema.ItemTypeBoolean)
+	dur, en := 3*time.Millisecond, c16Enum(1)
+	add("ptr-duration", &dur, schema.ItemTypeInteger)
+	add("ptr-enum", &en, schema.ItemTypeInteger)
 	// containers
 	add("slice-empty", []int{}, schema.ItemTypeArray)
 	add("slice-int", []int{1, 2, 3}, schema.ItemTypeArray)
@@ -468,7 +500,9 @@ func c16Typed(c *c16Case, v *fw.V) {
 		}
 		v.Add("typed-pairs", 1)
 		// a value of exactly the declared kind must survive (pointers and nil-likes: no panic is all the statement demands)
-		if val.Type == typ && val.Type != "" && reflect.ValueOf(val.V).Kind() != reflect.Pointer {
+		// (named types - time.Duration, an enum - are taken by the untyped routes; what a typed declaration makes of
+		// them is not prescribed: no panic is demanded, nothing more)
+		if val.Type == typ && val.Type != "" && reflect.ValueOf(val.V).Kind() != reflect.Pointer && reflect.TypeOf(val.V).PkgPath() == "" {
 			c16CheckRead(v, "typed-"+string(typ), val, iv.Type(), got)
 		}
 		// Item.ToValue path (declared olive items) must not panic either
